@@ -566,19 +566,51 @@ func (d *driver) check(spec *propSpec) int {
 		json.Indent(&pretty, g.plan, "", " ")
 		os.WriteFile(path, pretty.Bytes(), 0o644)
 		j := &job{Prop: spec.ID, Tier: d.tier, Mode: "replay", Replay: g.plan}
-		rr, perr := d.runProc(bin, j, 900, 10*time.Minute, spec.Race)
-		ok := false
-		for _, r := range rr {
-			for _, v := range r.Violations {
-				if v.Prop == spec.ID && v.Key == k {
-					ok = true
+		// The simulator's own choices replay exactly.  Code under test may still consult something the simulator
+		// does not own (Go's randomised map iteration order is the one source met so far): then a replay can come out
+		// differently.  The replay is repeated in fresh processes; a violation is reported only if a replay shows it
+		// again, with the count, and never on the strength of the exploration run alone.
+		ok, tries := 0, 0
+		perr := ""
+		for tries < 24 && ok == 0 {
+			tries++
+			var rr []result
+			rr, perr = d.runProc(bin, j, 900, 10*time.Minute, spec.Race)
+			for _, r := range rr {
+				for _, v := range r.Violations {
+					if v.Prop == spec.ID && v.Key == k {
+						ok++
+					}
 				}
 			}
 		}
-		if !ok {
-			return d.infra("violation %s (seed %d) did not reproduce from its replay file %s (%s)", k, g.first.Seed, path, perr)
+		if ok == 0 && len(g.first.Plan) > 0 && !bytes.Equal(g.first.Plan, g.plan) {
+			// the minimised plan does not show it: fall back to the plan of the run that did (unminimised)
+			var full bytes.Buffer
+			json.Indent(&full, g.first.Plan, "", " ")
+			os.WriteFile(path, full.Bytes(), 0o644)
+			j.Replay = g.first.Plan
+			for t2 := 0; t2 < 6 && ok == 0; t2++ {
+				tries++
+				var rr []result
+				rr, perr = d.runProc(bin, j, 900, 10*time.Minute, spec.Race)
+				for _, r := range rr {
+					for _, v := range r.Violations {
+						if v.Prop == spec.ID && v.Key == k {
+							ok++
+						}
+					}
+				}
+			}
 		}
-		lines = append(lines, fmt.Sprintf("VIOLATION property=%s replay=%s class=%s key=%s runs=%d detail=%q", spec.ID, path, g.v.Class, k, g.count, g.v.Detail))
+		if ok == 0 {
+			return d.infra("violation %s (seed %d) did not reproduce from its replay file %s in %d fresh processes (%v)", k, g.first.Seed, path, tries, perr)
+		}
+		note := ""
+		if tries > 1 {
+			note = fmt.Sprintf(" replay_note=%q", fmt.Sprintf("reproduced in replay %d of %d: the code under test depends on a source of nondeterminism outside the simulator (e.g. map iteration order)", tries, tries))
+		}
+		lines = append(lines, fmt.Sprintf("VIOLATION property=%s replay=%s class=%s key=%s runs=%d detail=%q%s", spec.ID, path, g.v.Class, k, g.count, g.v.Detail, note))
 		exit = 1
 	}
 	if spec.Race {
